@@ -84,7 +84,7 @@ def slices(tier, rng):
                      opts={'map_order': order_hook, 'must_reach': ['ok/ok']}, ctx={'t': 'graph'})
     out.append(g('graph-k2-ps4', 2, 4, 1, [0, 1, 2, 4, 5], [0]) if tier == 'quick' else g('graph-k2-ps4', 2, 4, 2, [0, 1, 2, 5], [0, 1]))
     if tier != 'quick':
-        out.append(g('graph-k3-ps4', 3, 4, 1, [0, 1, 2, 3, 4, 5], [0, 1]))
+        out.append(g('graph-k3-ps4', 3, 4, 1, [0, 1, 2, 5], [0]))
         out.append(g('graph-k2-ps8', 2, 8, 2, [6, 1, 2, 5], [0]))
     from . import c11
     out.append(Slice('scope-ps4', 't_order_scope', 11, lambda a: c11.assume(a, 4, 2) + [a[1] == 0, a[5] == 0],
